@@ -736,6 +736,10 @@ func (s *Spec) SafeParametersFor(operationID string, callmeOnError ErrorOnParamF
 		return res
 	}
 
+	if s.spec.Paths == nil {
+		return nil
+	}
+
 	for _, pi := range s.spec.Paths.Paths {
 		if pi.Get != nil && pi.Get.ID == operationID {
 			return gatherParams(&pi, pi.Get) //#nosec
@@ -783,9 +787,14 @@ func (s *Spec) ParamsFor(method, path string) map[string]spec.Parameter {
 // parameters. If the callback is set to nil, panics upon errors.
 func (s *Spec) SafeParamsFor(method, path string, callmeOnError ErrorOnParamFunc) map[string]spec.Parameter {
 	res := make(map[string]spec.Parameter)
-	if pi, ok := s.spec.Paths.Paths[path]; ok {
+	if s.spec.Paths == nil {
+		return res
+	}
+
+	op, found := s.OperationFor(method, path)
+	if pi, ok := s.spec.Paths.Paths[path]; ok && found {
 		s.paramsAsMap(pi.Parameters, res, callmeOnError)
-		s.paramsAsMap(s.operations[strings.ToUpper(method)][path].Parameters, res, callmeOnError)
+		s.paramsAsMap(op.Parameters, res, callmeOnError)
 	}
 
 	return res
